@@ -526,6 +526,29 @@ class PrimaryOrSupplementaryVD:
 
         return (added_block, block, offset)
 
+    def remove_rr_ce_entry(self, block, offset, length):
+        # type: (rockridge.RockRidgeContinuationBlock, int, int) -> bool
+        """
+        Remove a Rock Ridge Continuation Entry from the block it lives in, and
+        stop tracking the block if that was its last entry.
+
+        Parameters:
+         block - The block the entry lives in.
+         offset - The offset of the entry within the block.
+         length - The length of the entry.
+        Returns:
+         True if the block was removed, False otherwise.
+        """
+        if not self._initialized:
+            raise pycdlibexception.PyCdlibInternalError('This Primary Volume Descriptor is not initialized')
+
+        block.remove_entry(offset, length)
+        if block.is_empty() and block in self.rr_ce_blocks:
+            self.rr_ce_blocks.remove(block)
+            return True
+
+        return False
+
     def clear_rr_ce_entries(self):
         # type: () -> None
         """
